@@ -55,6 +55,11 @@ def build_registry(mods):
             reg.models[f] = mm
         for ls in m.loops:
             reg.loops[(ls.qname, ls.ordinal)] = ls
+    from contracts import common
+    from . import models as _models
+    reg.models[common.forall_range] = _models.q_forall
+    reg.models[common.exists_range] = _models.q_exists
+    reg.models[common.is_opaque] = _models.m_is_opaque
     reg.link()
     # loop specs keyed by (file, ast-qualname, ordinal)
     for (q, ordinal), ls in reg.loops.items():
@@ -284,7 +289,9 @@ def report(prop, mine, results, missing, seed, wall, args):
             rep = r['rep']
             functions.append({'name': rep['qname'], 'source': rep['source'], 'sha256': rep['sha256'],
                               'paths': rep['paths'], 'outcomes': rep['outcomes'],
-                              'clauses': len(rep['clauses'])})
+                              'clauses': len(rep['clauses']), 'wall_s': round(rep['wall'], 2),
+                              'solver_s': round(rep['solver_time'], 2),
+                              'feasibility_queries': rep['feasibility_queries']})
             solver_time += rep['solver_time']
             vcs += rep['vcs']
             for b, n in rep['by_backend'].items():
@@ -406,7 +413,8 @@ def report(prop, mine, results, missing, seed, wall, args):
         exit_code = 3
     if args.verbose:
         for fn in functions:
-            print('  ', fn['name'], 'paths=%d' % fn['paths'], fn['outcomes'], 'clauses=%d' % fn['clauses'])
+            print('  ', fn['name'], 'paths=%d' % fn['paths'], fn['outcomes'], 'clauses=%d' % fn['clauses'],
+                  'wall=%.1fs solver=%.1fs feas=%d' % (fn['wall_s'], fn['solver_s'], fn['feasibility_queries']))
     return exit_code
 
 
